@@ -44,8 +44,8 @@ def check(case):
             i = next(i for i, (g, w) in enumerate(zip(got, want)) if g is None or logic.canon(g) != logic.canon(w["ast"]))
             out.append(("C05.ctc-ast", f"#{i}: expected {logic.canon(want[i]['ast'])}, got {logic.canon(got[i]) if got[i] else None}"))
         # parse_json on the loaded object == reading the file
-        with open(sc.path("cycle1.json"), encoding="utf-8") as fh:
-            loaded = lib(json.load, fh)
+        # (the file at the shared path now holds the last cycle's text; cycle 1's bytes are in texts[0])
+        loaded = lib(json.loads, texts[0].decode("utf-8"))
         if isinstance(loaded, Raised):
             out.append(("C05.file-not-json", loaded.text))
         else:
